@@ -200,6 +200,15 @@ fn open_api(rng: &mut Prng) -> OpenApi {
 
 pub fn gen_c01(rng: &mut Prng, run: u64, t: &Tier) -> Vec<Ev> {
     let mut ev = vec![];
+    if run == 5 || (t.thorough && run % 50_000 == 77) {
+        // one world per batch moves more than 2^32 bytes through a single pair of contexts
+        let aead = SEAL_AEADS[(run / 3 % 3) as usize];
+        let cfg = gen_cfg(rng, SuiteId { kem: KemId::X25519, kdf: KdfId::S256, aead, shim: false }, ModeKind::Base, 10);
+        setup_pair(&mut ev, rng, 0, &cfg, false, false);
+        ev.push(Ev::VolumePump { c: 0, n: 66, len: 64 << 20 });
+        ev.push(Ev::VolumePump { c: 0, n: 3, len: 1000 });
+        return ev;
+    }
     let (suite, mode) = suite_mode_biased(run, rng, &SEAL_AEADS, false);
     let cfg = gen_cfg(rng, suite, mode, 300);
     let kem = suite.kem;
@@ -323,6 +332,18 @@ pub fn gen_c02(rng: &mut Prng, run: u64, _t: &Tier) -> Vec<Ev> {
             ev.push(Ev::Deliver { r: 1, from: 1, rec: RecRef::Index(0), fault: Fault::None, api });
         }
     }
+    if suite.kem.is_nist() && rng.chance(1, 6) {
+        // a receiver whose encapsulated key is the valid point that makes the DH x-coordinate 0
+        let ikm_r = rng.rand_bytes(32);
+        let (sk_r, _, _) = refhpke::derive_keypair(suite.kem, &ikm_r);
+        if let Some(enc) = refhpke::zero_x_partner(suite.kem, &sk_r) {
+            let mut c0 = cfg.clone();
+            c0.mode = if mode.has_psk() { ModeKind::Psk } else { ModeKind::Base };
+            ev.push(Ev::Keygen { k: 30, kem: suite.kem, ikm: b(ikm_r) });
+            ev.push(Ev::SetupR { c: 8, cfg: c0, kr: 30, ks: None, enc: EncSrc::Raw(b(enc)), model_only: false });
+            ev.push(Ev::Export { c: 8, role: Role::R, ctx: b(vec![1, 2]), len: 48 });
+        }
+    }
     if seals && rng.chance(1, 5) {
         // counters cross 2^8
         for c in 0..3 {
@@ -390,6 +411,30 @@ pub fn gen_c03(rng: &mut Prng, run: u64, _t: &Tier) -> Vec<Ev> {
     ev.push(Ev::KemProbe { kem, kr: 0, ks: None, rng: rng_script(rng, kem) });
     ev.push(Ev::KemProbe { kem, kr: 0, ks: Some(1), rng: rng_script(rng, kem) });
     ev.push(Ev::KemProbe { kem, kr: 2, ks: Some(0), rng: rng_script(rng, kem) });
+    if kem.is_nist() && rng.chance(1, 3) {
+        // valid keys whose DH result has x-coordinate 0 (not the point at infinity: must work)
+        let script = b(rng.rand_bytes(kem.rfc_sizes().2));
+        let (sk_e, _, _) = refhpke::derive_keypair(kem, &script);
+        if let Some(pk_r) = refhpke::zero_x_partner(kem, &sk_e) {
+            ev.push(Ev::KeyRaw { k: 6, kem, sk: b(vec![]), pk: b(pk_r) });
+            let cfg = gen_cfg(rng, SuiteId { kem, kdf: kem.kem_kdf(), aead: AeadId::ChaCha, shim: false }, ModeKind::Base, 10);
+            ev.push(Ev::SetupS { c: 6, cfg: cfg.clone(), kr: 6, ks: None, ks_pub: None, rng: script, model_only: false });
+            ev.push(Ev::Export { c: 6, role: Role::S, ctx: b(vec![]), len: 32 });
+        }
+        let ikm_r = rng.rand_bytes(32);
+        let (sk_r, _, _) = refhpke::derive_keypair(kem, &ikm_r);
+        if let Some(enc) = refhpke::zero_x_partner(kem, &sk_r) {
+            ev.push(Ev::Keygen { k: 7, kem, ikm: b(ikm_r) });
+            let mode = if rng.chance(1, 2) { ModeKind::Base } else { ModeKind::Auth };
+            let cfg = gen_cfg(rng, SuiteId { kem, kdf: kem.kem_kdf(), aead: AeadId::ChaCha, shim: false }, mode, 10);
+            ev.push(Ev::Keygen { k: 8, kem, ikm: ikm(rng) });
+            // Base: zero-x ephemeral DH; Auth: honest-looking enc = the partner point too, and the
+            // identity key is the partner point (zero-x identity DH)
+            ev.push(Ev::KeyRaw { k: 9, kem, sk: b(vec![]), pk: b(enc.clone()) });
+            ev.push(Ev::SetupR { c: 7, cfg: cfg.clone(), kr: 7, ks: if mode.has_auth() { Some(9) } else { None }, enc: if mode.has_auth() { EncSrc::Raw(b(refhpke::derive_keypair(kem, &rng.rand_bytes(32)).1)) } else { EncSrc::Raw(b(enc)) }, model_only: false });
+            ev.push(Ev::Export { c: 7, role: Role::R, ctx: b(vec![]), len: 32 });
+        }
+    }
     ev
 }
 
@@ -735,6 +780,10 @@ pub fn gen_c06(rng: &mut Prng, run: u64, t: &Tier) -> Vec<Ev> {
 
 fn perturb_bytes(rng: &mut Prng, v: &[u8]) -> Vec<u8> {
     let mut o = v.to_vec();
+    if !v.is_empty() && rng.chance(1, 12) {
+        // the field replaced by its own digest ("long keys are hashed first" confusions)
+        return refhpke::hash(*rng.pick(&KDFS), &[v]);
+    }
     match rng.below(10) {
         0 if !o.is_empty() => {
             let i = rng.below(o.len() as u64 * 8) as usize;
@@ -780,6 +829,9 @@ pub fn gen_c07(rng: &mut Prng, run: u64, _t: &Tier) -> Vec<Ev> {
     if !mode.has_psk() {
         cfg.psk = b(vec![]);
         cfg.psk_id = b(vec![]);
+    } else if rng.chance(1, 6) {
+        let l = *rng.pick(&[65usize, 100, 129, 200]);
+        cfg.psk = b(rng.rand_bytes(l));
     }
     let kem = suite.kem;
     setup_pair(&mut ev, rng, 0, &cfg, false, false);
@@ -1262,6 +1314,10 @@ pub fn gen_c10(rng: &mut Prng, run: u64, _t: &Tier) -> Vec<Ev> {
             for tag in [None, Some(b(rng.bytes(16)))] {
                 ev.push(Ev::SingleShotOpenRaw { cfg: cfg.clone(), kr: 0, ks: Some(2), enc: EncSrc::Of(0), ct: b(rng.bytes(33)), aad: b(vec![1]), tag });
             }
+            // both DH results zero at once: small-order enc *and* small-order identity key
+            let other = small[rng.below(14) as usize].clone();
+            ev.push(Ev::SetupR { c: 2, cfg: cfg.clone(), kr: 0, ks: Some(2), enc: EncSrc::Raw(b(other.clone())), model_only: false });
+            ev.push(Ev::SingleShotOpenRaw { cfg: cfg.clone(), kr: 0, ks: Some(2), enc: EncSrc::Raw(b(other)), ct: b(rng.bytes(20)), aad: b(vec![]), tag: None });
             // and a sender that *claims* a small-order public identity key (only kem_context sees it)
             ev.push(Ev::SetupS { c: 1, cfg: cfg.clone(), kr: 0, ks: Some(1), ks_pub: Some(2), rng: rng_script(rng, kem), model_only: false });
         }
@@ -1370,6 +1426,15 @@ pub fn gen_c12(rng: &mut Prng, run: u64, _t: &Tier) -> Vec<Ev> {
         let mut v = val.clone();
         v.resize(size + extra, 0);
         ev.push(Ev::DecodeProbe { suite, kind, bytes: b(v) });
+    }
+    if kem.is_nist() && matches!(kind, Kind::Pk | Kind::Enc) {
+        // right length, valid coordinates, every interesting leading byte: either rejected or, if
+        // accepted, re-serialised identically
+        for tagb in [0x00u8, 0x01, 0x02, 0x03, 0x05, 0x06, 0x07, 0x08, 0x44, 0x84, 0xff] {
+            let mut v = pk.clone();
+            v[0] = tagb;
+            ev.push(Ev::DecodeProbe { suite, kind, bytes: b(v) });
+        }
     }
     if kem.is_nist() && kind == Kind::Sk {
         // right-length scalars at and beyond the group order: rejected, never reduced
@@ -1564,7 +1629,10 @@ pub fn gen_c14(rng: &mut Prng, run: u64, _t: &Tier) -> Vec<Ev> {
         return gen_history(rng, run / 3, &o);
     }
     let mut ev = vec![];
-    let (suite, mode) = suite_mode_biased(run / 3, rng, &SEAL_AEADS, false);
+    let (mut suite, mode) = suite_mode_biased(run / 3, rng, &SEAL_AEADS, false);
+    if rng.chance(1, 12) {
+        suite.aead = AeadId::Export; // export-only: both forms must behave alike here too (panic / same error)
+    }
     let kem = suite.kem;
     let cfg = gen_cfg(rng, suite, mode, 100);
     ev.push(Ev::Keygen { k: 0, kem, ikm: ikm(rng) });
